@@ -105,6 +105,7 @@ class HistGen:
         self.rng = rng
         r = rng
         self.domain = r.choice([b't.example.com', b'tun.x.org', b'a.bc'])
+        self.srv_domain = None      # what the server is configured with when it differs from the clients' domain (wildcard, other case)
         self.password = bytes(r.randrange(1, 256) for _ in range(r.choice([0, 3, 8, 32])))
         self.check_ip = r.choice([1, 1, 1, 0])
         nb = r.choice([27, 27, 24, 28, 29, 30, 16])
@@ -151,7 +152,7 @@ class HistGen:
         return r.randrange(256 if wide else 16)
 
     def cfg(self):
-        return '%s %s %d %s %d %d %s %d' % (self.domain.hex(), vlib.hexs(self.password), self.check_ip, self.myip,
+        return '%s %s %d %s %d %d %s %d' % ((self.srv_domain or self.domain).hex(), vlib.hexs(self.password), self.check_ip, self.myip,
                                              self.netbits, self.mtu, self.nsip.hex() if self.nsip else '-', self.bind)
 
     def next_id(self):
@@ -175,7 +176,7 @@ class HistGen:
             qtype = self.qtype
         if qid is None:
             qid = self.next_id()
-        if self.rng.random() < 0.1:
+        if self.rng.random() < 0.1 and not getattr(self, 'no_case_relay', False):
             # case-randomising relay on the domain part / letters
             name = bytes((c ^ 0x20) if (65 <= (c & 0xdf) <= 90 and self.rng.randrange(2)) else c for c in name)
         dg = dns_query(qid, qtype, name, edns0=self.rng.randrange(4) > 0)
@@ -508,12 +509,18 @@ class HistGen:
         return 'H ' + self.cfg() + ' ; ' + ' ; '.join(self.events[:nevents])
 
 
-def gen_histories(seed, n, nevents, tag='srv'):
+def gen_histories(seed, n, nevents, tag='srv', wildcard=0.0):
+    """wildcard: fraction of histories whose server is configured with a wildcard for the first label of the clients'
+    domain (only for comparisons of the implementation with the model: the monitors of the checks match plain domains)"""
     rng = vlib.rng_for(seed, tag)
     out = []
     stats = {}
     for _ in range(n):
         g = HistGen(rng)
+        if wildcard and rng.random() < wildcard:
+            g.domain = rng.choice([b'tun', b'my-tunnel1', b'x', b'T0']) + g.domain[g.domain.index(b'.'):]
+            g.srv_domain = b'*' + g.domain[g.domain.index(b'.'):]
+            stats['wildcard_server'] = stats.get('wildcard_server', 0) + 1
         out.append(g.build(nevents if isinstance(nevents, int) else rng.choice(nevents)))
         for k, v in g.stats.items():
             stats[k] = stats.get(k, 0) + v
@@ -553,7 +560,7 @@ def loop_glue(rep, ctx, exe, n, tag):
     if not ok:
         ctx.broken.append(('extraction', 'server model driver does not build: ' + lg[-300:]))
         return
-    hs, st = gen_histories(rep.seed, n, 100, tag=tag)
+    hs, st = gen_histories(rep.seed, n, 100, tag=tag, wildcard=0.3)
     rng = vlib.rng_for(rep.seed, tag + '-merge')
     ls = [to_loop_history(h, rng) for h in hs]
     rc, impl, err = vlib.parallel_run_cases(exe, ls, ctx.work, 'sloop-impl')
